@@ -123,7 +123,10 @@ def ob_c(ob):
         ob.require(len(sel) == ni.shape[0], "overlap routine called for %d pairs, %d are within the cutoff" % (ni.shape[0], len(sel)))
         return SymTensor(di_s[sel].copy())
 
-    def tetci(*a, **k):
+    seen = {}
+
+    def tetci(const_, idxi_, idxj_, ni_, nj_, xij_, rij_, *a, **k):
+        seen.update(rij=rij_, xij=xij_, ni=ni_, nj=nj_)
         return (SymTensor(S.reals("w", (npairs, 10, 10))), SymTensor(e1b.copy()), SymTensor(e2a.copy()), None, None, None, None)
 
     HC.diatom_overlap_matrix_PM6_SP, HC.TETCI = ov, tetci
@@ -135,6 +138,16 @@ def ob_c(ob):
     Ma = M.a
     maskd, mask = m.maskd.tolist(), m.mask.tolist()
     bad = False
+    # the two-electron / core-attraction routine must be handed every pair's own distance and direction, unmodified, on both
+    # sides of the overlap cutoff (the long-range Coulomb tail and its cancellation live in those integrals)
+    for key, ref in (("rij", m.rij), ("xij", m.xij), ("ni", m.ni), ("nj", m.nj)):
+        got = seen.get(key)
+        if not (torch.is_tensor(got) and got.shape == ref.shape and torch.equal(got, ref)):
+            if replay_hcore_far():
+                ob.violation("hcore hands the two-centre integral routine a modified %s (e.g. clamped at the overlap cutoff): interactions between distant fragments stop decaying" % key, {"module": "harness.C19", "func": "replay_hcore_far", "args": {}})
+                return
+            raise HarnessError("two-centre integral argument %s differs from the molecule's but the replay shows no effect" % key)
+        ob.discharged("c:integral routine receives the molecule's own %s" % key)
     for a in range(natoms):
         blk = Ma[maskd[a]]
         for mu in range(4):
